@@ -338,6 +338,30 @@ Proof.
   - exfalso. rewrite (A_compress _ _ _ HD) in Ec. simpl in Ec. destruct (sp_compress rs [58%N] u); discriminate.
 Qed.
 
+(* compression alone needs no hypothesis on the metaprefix *)
+Theorem compresses known_rs ex dl cutoff meta us u p l D :
+  match cutoff with None => True | Some k => k = 0 end ->
+  In u us -> skipped known_rs ex u = false -> classify al (eff_delims dl) u = Some (p, l) ->
+  mk_conv true [58%N] (spec_records al known_rs ex dl cutoff meta us) = Val D ->
+  exists x, compress D u false false = Val (Some x).
+Proof.
+  intros Hcut Hu Hskip Hcl HD.
+  set (rs := spec_records al known_rs ex dl cutoff meta us) in *.
+  assert (Hp: In p (spec_prefixes al known_rs ex dl cutoff us)).
+  { apply spec_prefixes_cutoff. split.
+    - apply in_map_iff. exists (p, l). split; auto. unfold learnt. apply in_flat_map. exists u. split; auto.
+      rewrite Hskip, Hcl. left; auto.
+    - destruct cutoff as [k|]; simpl; auto. subst k. reflexivity. }
+  destruct (number_from_has 1 meta _ p Hp) as (r & Hr & Hru). fold (spec_records al known_rs ex dl cutoff meta us) in Hr. fold rs in Hr.
+  apply classify_some in Hcl as (d0 & pre & _ & Hpd & Hul & _).
+  assert (Huri: is_uri D u = true).
+  { apply (is_uri_iff _ _ _ u HD). exists r, p. repeat split; auto; [left; auto|]. rewrite Hul. apply prefixb_app. }
+  destruct (compress D u false false) as [[x|]|e] eqn:Ec.
+  - eauto.
+  - exfalso. apply (C07_is_uri _ _ _ HD u) in Huri. auto.
+  - exfalso. rewrite (A_compress _ _ _ HD) in Ec. simpl in Ec. destruct (sp_compress rs [58%N] u); discriminate.
+Qed.
+
 (* URIs already recognised by the supplied converter contribute nothing *)
 Theorem known_skip recog ex dl cutoff meta us :
   spec_records al recog ex dl cutoff meta us =
